@@ -1,24 +1,4 @@
-//@ include prelude/head.rs
-use std::str::{from_utf8, FromStr};
-use std::fmt::{Formatter, Result as FmtResult};
-use vstd::future::*;
-use std::future::Future;
-//@ include prelude/std_extra.rs
-//@ include prelude/error_types.rs
-//@ include prelude/crypto.rs
-//@ include prelude/chrono.rs
-//@ include prelude/fmt.rs
-//@ include spec/uri.rs
-//@ include spec/headers.rs
-//@ include spec/path.rs
-//@ include spec/query.rs
-//@ include spec/keys.rs
-//@ include prelude/hex.rs
-//@ include prelude/outline.rs
-//@ include prelude/http.rs
-//@ include spec/creq.rs
-//@ include spec/auth.rs
-//@ include prelude/deps_auth.rs
+//@ include prelude/common.rs
 //@ include contracts/crypto.rs as callee
 //@ include contracts/keys.rs as callee
 //@ include prelude/builders.rs
